@@ -330,7 +330,13 @@ def eval_fault(base, i, pre_existing, corrupt=None):
                 ino = os.stat(path).st_ino
         obj = get_base(base)[0]()
         if corrupt:
-            REAL_BY_NAME[corrupt][1](obj)
+            try:
+                REAL_BY_NAME[corrupt][1](obj)
+            except (TypeError, ValueError):
+                # the value is refused already when it is assigned: there is no invalid object whose dump could fail
+                return {"raised": None, "refused_at_assignment": True, "failed_in": None, "existed_before": before is not None,
+                        "exists_after": os.path.exists(path), "bytes_unchanged": None, "size_after": None,
+                        "still_the_same_hardlinked_file": None, "other_files": []}
         Ctl.active, Ctl.count, Ctl.fail_at, Ctl.log = True, 0, i, []
         raised = None
         try:
